@@ -285,6 +285,7 @@ fn run_once<T: Sc, F: Factory<T>>(sc: &Scenario, rep: &mut RunReport, sample: bo
     let res = guarded(move || {
         let sch = shuttle::scheduler::RandomScheduler::new_from_seed(seed, 1);
         shuttle::Runner::new(sch, cfg).run(move || {
+            let _scope = crate::ctl::ShuttleScope::enter();
             let mut r = RunReport::default();
             let log = run_once_inner::<T, F>(&scc, &mut r, sample);
             *out2.lock().unwrap() = Some((r, log));
